@@ -3,6 +3,8 @@
 CONFIG = {
     "C01": {"timeout_s": {"quick": 900, "thorough": 7200}},
     "C02": {"timeout_s": {"quick": 900, "thorough": 7200}},
+    "C03": {"floatlog": True, "timeout_s": {"quick": 900, "thorough": 7200}},
+    "C04": {"features": "std", "floatlog": True, "timeout_s": {"quick": 900, "thorough": 14400}},
     "C05": {"profiles": ["release", "chk"], "timeout_s": {"quick": 900, "thorough": 7200}},
     "C06": {"timeout_s": {"quick": 900, "thorough": 7200}},
     "C07": {"timeout_s": {"quick": 900, "thorough": 7200}},
@@ -11,4 +13,6 @@ CONFIG = {
     "C10": {"timeout_s": {"quick": 900, "thorough": 7200}},
     "C11": {"timeout_s": {"quick": 900, "thorough": 7200}},
     "C12": {"timeout_s": {"quick": 900, "thorough": 7200}},
+    "C13": {"nostd": True, "timeout_s": {"quick": 900, "thorough": 7200}},
+    "C14": {"external": "c14"},
 }
